@@ -401,5 +401,261 @@ theorem encSection_shape {cfg : EncCfg} {s : SectionLayout} {vs : List PVal} {pa
     cases hc
     exact ⟨x ++ zeros (padBits ed x.length), by simp only [List.append_assoc], Or.inl ⟨hh', x, ed, hsh, rfl⟩⟩
 
+/-! ## supplied values vs decoded values -/
+
+/-- decoded value `v'` of a parameter called `n` of declared width `nb` for the supplied value `v`:
+    integers and flags come back as supplied (the two back-patched length fields excepted: their decoded
+    values are characterised by `C04_decode_consumes_declared` / `C04_encoded_frame`), bytes blank-padded or
+    cut to the width, a zero-width `bin` extended by the zero padding of its section, a descriptor list
+    possibly extended by null descriptors read from the zero fill of an over-declared section. -/
+def PRel (n : String) (nb : Nat) (v v' : PVal) : Prop :=
+  v' = .data ∨          -- the template-data parameter (whatever was supplied in its place)
+  match v with
+  | .int x => (n = "section_length" ∨ n = "length") ∨ v' = .int x
+  | .bool b => v' = .bool b
+  | .bin bs => ∃ k, v' = .bin (bs ++ zeros k) ∧ (nb ≠ 0 → k = 0)
+  | .bytes b => nb ≠ 0 → v' = .bytes (padBytes b (nb / 8))
+  | .descs ids => ∃ k, v' = .descs (ids ++ List.replicate k 0)
+  | .data => False
+
+/-- parameter list / supplied values / decoded values; the second conjunct: what the section loop
+    itself consults (`edition`, `is_section<k>_presents`) is decoded exactly -/
+def RelVals : List Param → List PVal → List PVal → Prop
+  | [], _, [] => True
+  | p :: ps, v :: vs, v' :: vsD =>
+    PRel p.name p.nbits v v' ∧ (p.asProperty = true → isCtrl p.name = true → v' = v) ∧ RelVals ps vs vsD
+  | _, _, _ => False
+
+def decAcc (ps : List Param) (vsD : List PVal) : List (String × PVal) :=
+  List.zipWith (fun p v' => (p.name, v')) ps vsD
+
+def ERel (e e' : String × PropEntry) : Prop :=
+  e.1 = e'.1 ∧ e.2.nbits = e'.2.nbits ∧ e.2.pos = e'.2.pos ∧ PRel e.1 e.2.nbits e.2.val e'.2.val ∧
+    (isCtrl e.1 = true → e'.2.val = e.2.val)
+
+/-- the decoder's registry against the encoder's: entry by entry the same names, widths and bit
+    positions, values related by `PRel`, control properties identical -/
+def RegRel : Registry → Registry → Prop
+  | [], [] => True
+  | e :: r, e' :: r' => ERel e e' ∧ RegRel r r'
+  | _, _ => False
+
+theorem PRel_canon (p : Param) (v : PVal) : PRel p.name p.nbits v (canonV p v) := by
+  cases v with
+  | int x => exact Or.inr (Or.inr rfl)
+  | bool b => exact Or.inr rfl
+  | bin bs => exact Or.inr ⟨0, by simp [zeros, canonV], fun _ => rfl⟩
+  | bytes b => exact Or.inr fun _ => rfl
+  | descs ids => exact Or.inr ⟨0, by simp [canonV]⟩
+  | data => exact Or.inl rfl
+
+theorem RegRel_refl_init : RegRel Registry.init Registry.init := by
+  simp only [Registry.init, RegRel, ERel, PRel, and_true, true_and]
+  decide
+
+theorem RegRel_get {rE rD : Registry} (h : RegRel rE rD) (n : String) (hn : isCtrl n = true) :
+    (rD.get? n).map (·.val) = (rE.get? n).map (·.val) := by
+  induction rE generalizing rD with
+  | nil => cases rD with
+    | nil => rfl
+    | cons _ _ => simp [RegRel] at h
+  | cons e r ih =>
+    cases rD with
+    | nil => simp [RegRel] at h
+    | cons e' r' =>
+      obtain ⟨⟨h1, _, _, _, h5⟩, h6⟩ := h
+      obtain ⟨k, ev⟩ := e
+      obtain ⟨k', ev'⟩ := e'
+      simp only at h1 h5
+      subst h1
+      simp only [Registry.get?, List.lookup]
+      by_cases hk : n = k
+      · subst hk
+        simp only [beq_self_eq_true, Option.map_some, h5 hn]
+      · have : (n == k) = false := by simpa using hk
+        simp only [this]
+        exact ih h6
+
+theorem RegRel_editionKey {rE rD : Registry} (h : RegRel rE rD) : rD.editionKey = rE.editionKey := by
+  have := RegRel_get h "edition" isCtrl_edition
+  unfold Registry.editionKey
+  cases h1 : rD.get? "edition" <;> cases h2 : rE.get? "edition" <;> simp only [h1, h2, Option.map_some,
+    Option.map_none, Option.some.injEq, reduceCtorEq] at this
+  · rfl
+  · simp only [this]
+
+theorem RegRel_isPresent {rE rD : Registry} (h : RegRel rE rD) (s : SectionLayout) (idx : Nat) :
+    isPresent rD s idx = isPresent rE s idx := by
+  have := RegRel_get h (presName idx) (isCtrl_presName idx)
+  unfold isPresent
+  split
+  · rfl
+  · cases h1 : rD.get? (presName idx) <;> cases h2 : rE.get? (presName idx) <;> simp only [h1, h2, Option.map_some,
+      Option.map_none, Option.some.injEq, reduceCtorEq] at this
+    · rfl
+    · simp only [this]
+
+theorem RegRel_register (start : Nat) :
+    ∀ (ps : List Param) (vs vsD : List PVal) (off : Nat) (rE rD : Registry),
+      RelVals ps vs vsD → RegRel rE rD → RegRel (register rE start off ps vs) (register rD start off ps vsD) := by
+  intro ps
+  induction ps with
+  | nil => intro vs vsD off rE rD _ h; cases vs <;> cases vsD <;> simpa [register] using h
+  | cons p ps ih =>
+    intro vs vsD off rE rD hr h
+    cases vs with
+    | nil => simp [RelVals] at hr
+    | cons v vs =>
+      cases vsD with
+      | nil => simp [RelVals] at hr
+      | cons v' vsD =>
+        obtain ⟨h1, h2, h3⟩ := hr
+        simp only [register]
+        apply ih _ _ _ _ _ h3
+        by_cases hp : p.asProperty = true
+        · simp only [hp, if_true]
+          exact ⟨⟨rfl, rfl, rfl, h1, h2 hp⟩, h⟩
+        · simp only [hp]; exact h
+
+/-! ## descriptors -/
+
+theorem toBits_zero (n : Nat) : toBits n 0 = zeros n := by
+  induction n with
+  | zero => rfl
+  | succ n ih => simp only [toBits, ih, zeros, List.replicate_succ, Nat.zero_div, Nat.zero_mod]; rfl
+
+theorem readUInt_zeros (n : Nat) (hn : 0 < n) (rest : Bits) : readUInt n (zeros n ++ rest) = .ok (0, rest) := by
+  rw [← toBits_zero]
+  exact readUInt_toBits n 0 rest hn (Nat.pos_of_ne_zero (by simp))
+
+theorem readDescs_zeros (j : Nat) (rest : Bits) :
+    readDescs j (zeros (16 * j) ++ rest) = .ok (List.replicate j 0, rest) := by
+  induction j with
+  | zero => simp [readDescs, R.pure, zeros]
+  | succ j ih =>
+    have : zeros (16 * (j + 1)) = zeros 2 ++ (zeros 6 ++ (zeros 8 ++ zeros (16 * j))) := by
+      simp only [zeros_append]; congr 1; omega
+    simp only [readDescs, R.bind, R.map, this, List.append_assoc, readUInt_zeros 2 (by decide),
+      readUInt_zeros 6 (by decide), readUInt_zeros 8 (by decide), ih, R.pure, List.replicate_succ]
+
+theorem readDescs_enc {ids : List Nat} {w x : Bits} (h : encDescs w ids = .ok (w ++ x)) (j : Nat) (rest : Bits) :
+    readDescs (ids.length + j) (x ++ (zeros (16 * j) ++ rest)) = .ok (ids ++ List.replicate j 0, rest) := by
+  induction ids generalizing w x with
+  | nil =>
+    simp only [encDescs] at h
+    have hx : [] = x := List.append_cancel_left (as := w) (by simpa using Except.ok.inj h)
+    subst hx
+    simpa using readDescs_zeros j rest
+  | cons id ids ih =>
+    simp only [encDescs] at h
+    split at h
+    · cases h
+    rename_i wa h1
+    split at h
+    · cases h
+    rename_i wb h2
+    split at h
+    · cases h
+    rename_i wc h3
+    obtain ⟨e1, n1, p1, l1⟩ := writeUInt_ok h1
+    obtain ⟨e2, n2, p2, l2⟩ := writeUInt_ok h2
+    obtain ⟨e3, n3, p3, l3⟩ := writeUInt_ok h3
+    subst e1 e2 e3
+    obtain ⟨y, hy, _⟩ := encDescs_sh h
+    have hx : x = toBits 2 (Int.ofNat (id / 100000)).toNat ++ (toBits 6 (Int.ofNat (id / 1000 % 100)).toNat ++
+        (toBits 8 (Int.ofNat (id % 1000)).toNat ++ y)) := by
+      simp only [List.append_assoc] at hy
+      exact List.append_cancel_left hy
+    rw [hy] at h
+    have ihy := ih h
+    subst hx
+    have hlen : (id :: ids).length + j = (ids.length + j) + 1 := by simp only [List.length_cons]; omega
+    rw [hlen]
+    simp only [readDescs, R.bind, R.map, List.append_assoc, readUInt_toBits 2 _ _ n1 l1, readUInt_toBits 6 _ _ n2 l2,
+      readUInt_toBits 8 _ _ n3 l3, ihy, R.pure, List.cons_append]
+    simp only [Int.ofNat_eq_natCast, Int.toNat_natCast] at l1 l2 l3 ⊢
+    have : id / 100000 * 100000 + id / 1000 % 100 * 1000 + id % 1000 = id := by omega
+    rw [this]
+
+/-! ## the zero-width last parameter of a section -/
+
+theorem zeros_split (a b : Nat) (h : a ≤ b) : zeros b = zeros a ++ zeros (b - a) := by
+  rw [zeros_append]; congr 1; omega
+
+/-- the zero-width parameter: reads what the encoder wrote for it and possibly some of the zero padding -/
+theorem decValue_zero {α : Type} (dc : DataCoder α) (a : α) {p : Param} {v : PVal} {payload w y : Bits}
+    (hw : p.widthOK = true) (hn : p.nbits = 0) (h : encParam w p v payload = .ok (w ++ y))
+    (st : DecSt α) (H z : Nat) (hsl : secLen st.acc = .ok H) (hH : 8 * H = st.used + y.length + z)
+    (hal : p.ty = .descriptors → st.used % 8 = 0)
+    (hdc : p.ty = .templateData → ∀ x, dc.dec st.reg (payload ++ x) = .ok (a, x)) :
+    ∃ (v' : PVal) (c : Bits) (z' : Nat) (dat : Option α), z' ≤ z ∧ c.length = y.length + (z - z') ∧
+      PRel p.name p.nbits v v' ∧ (∀ b, v' ≠ .int b) ∧ dat = (if p.ty = .templateData then some a else none) ∧
+      ∀ suf, y ++ (zeros z ++ suf) = c ++ (zeros z' ++ suf) ∧
+        decValue dc st p (c ++ (zeros z' ++ suf)) = .ok ((v', dat), zeros z' ++ suf) := by
+  unfold encParam at h
+  split at h
+  · -- descriptors
+    rename_i ids hty
+    obtain ⟨y', e, hyl, _⟩ := encDescs_sh h
+    have hy : y = y' := List.append_cancel_left e
+    subst hy
+    have hu := hal hty
+    have hcount : (H - st.used / 8) / 2 = ids.length + z / 16 := by omega
+    refine ⟨.descs (ids ++ List.replicate (z / 16) 0), y ++ zeros (16 * (z / 16)), z - 16 * (z / 16), none,
+      by omega, by simp only [List.length_append, zeros_length]; omega, Or.inr ⟨z / 16, rfl⟩, fun b hb => (by cases hb),
+      (by simp [hty]), fun suf => ⟨?_, ?_⟩⟩
+    · rw [zeros_split (16 * (z / 16)) z (by omega)]; simp only [List.append_assoc]
+    · simp only [decValue, hty, R.bind, hsl, R.lift, R.pure, R.map, hcount, List.append_assoc,
+        readDescs_enc h (z / 16) (zeros (z - 16 * (z / 16)) ++ suf)]
+  · -- template data
+    rename_i hty
+    have hy : payload = y := List.append_cancel_left (Except.ok.inj h)
+    subst hy
+    refine ⟨.data, payload, z, some a, Nat.le_refl _, by omega, Or.inl rfl, fun b hb => (by cases hb), (by simp [hty]),
+      fun suf => ⟨rfl, ?_⟩⟩
+    simp only [decValue, hty, R.map, R.bind, hdc hty, R.pure]
+  · rename_i i hty
+    obtain ⟨_, h0, _⟩ := writeUInt_ok h
+    omega
+  · rename_i i hty
+    unfold writeInt at h
+    obtain ⟨_, h0, _⟩ := writeUInt_ok h
+    omega
+  · rename_i b hty
+    simp only [Param.widthOK, hty, beq_iff_eq] at hw
+    omega
+  · -- bin
+    rename_i bs hty
+    have hy : bs = y := List.append_cancel_left (Except.ok.inj h)
+    subst hy
+    have hlt : ¬ (H * 8 < st.used) := by omega
+    have hr : ∀ suf, readBits (H * 8 - st.used) ((bs ++ zeros z) ++ ([] ++ suf)) = .ok (bs ++ zeros z, [] ++ suf) :=
+      fun suf => readBits_append_of_length _ _ _ (by simp only [List.length_append, zeros_length]; omega)
+    refine ⟨.bin (bs ++ zeros z), bs ++ zeros z, 0, none, Nat.zero_le _,
+      by simp only [List.length_append, zeros_length]; omega, Or.inr ⟨z, rfl, fun h0 => absurd hn h0⟩,
+      fun b hb => (by cases hb), (by simp [hty]), fun suf => ⟨by simp [zeros], ?_⟩⟩
+    have hz0 : zeros 0 = [] := rfl
+    simp only [decValue, hty, hn, if_true, reduceCtorEq, if_false, R.bind, hsl, R.lift, R.pure, hlt, readTyped, R.map,
+      readBin, hz0, hr suf]
+  · -- bytes
+    rename_i b hty
+    have hp0 : padBytes b (p.nbits / 8) = [] := by simp [padBytes, hn]
+    have hy : [] = y := by
+      have := List.append_cancel_left (Except.ok.inj h)
+      simpa [hp0, bytesToBits] using this
+    subst hy
+    have hlt : ¬ (H * 8 < st.used) := by omega
+    have hn8 : (H * 8 - st.used) / 8 = z / 8 := by simp only [List.length_nil] at hH; congr 1; omega
+    have hr : ∀ suf, readBits (8 * (z / 8)) (zeros (8 * (z / 8)) ++ (zeros (z - 8 * (z / 8)) ++ suf))
+        = .ok (zeros (8 * (z / 8)), zeros (z - 8 * (z / 8)) ++ suf) :=
+      fun suf => readBits_append_of_length _ _ _ (zeros_length _)
+    refine ⟨.bytes (bitsToBytes (zeros (8 * (z / 8)))), zeros (8 * (z / 8)), z - 8 * (z / 8), none, by omega,
+      by simp only [zeros_length, List.length_nil]; omega, Or.inr fun h0 => absurd hn h0,
+      fun b hb => (by cases hb), (by simp [hty]), fun suf => ⟨?_, ?_⟩⟩
+    · rw [zeros_split (8 * (z / 8)) z (by omega)]; simp only [List.nil_append, List.append_assoc]
+    · simp only [decValue, hty, hn, if_true, reduceCtorEq, if_false, R.bind, hsl, R.lift, R.pure, hlt, readTyped, R.map,
+        readBytes, hn8, hr suf]
+  · cases h
+
 end RT
 end Bufr
